@@ -36,6 +36,7 @@ pub fn build(ctl: &'static Ctrl, params: &Value) -> Instance {
                 let d = Duration::from_nanos(*ns);
                 let t0 = ctl.vnow();
                 let r0 = std::time::Instant::now();
+                let mut t_ret: Option<u64> = None; // set by ops that do more after the timed call has returned
                 let timed_out: bool = match op.as_str() {
                     "sleep" => {
                         may::coroutine::sleep(d);
@@ -51,6 +52,23 @@ pub fn build(ctl: &'static Ctrl, params: &Value) -> Instance {
                     "flag" => !flag.wait_timeout(d),
                     "recv" => rx.recv_timeout(d).is_err(),
                     "mrecv" => mrx.recv_timeout(d).is_err(),
+                    // a select arm ends half way through the time-out: its (internal) Done event wakes the poller,
+                    // which has to wait for the rest only
+                    "cqpoll" => {
+                        let half = d / 2;
+                        may::cqueue::scope(|cq| {
+                            cq.add(0, move |_es| {
+                                may::coroutine::sleep(half);
+                            });
+                            // a second arm outlives the poll (it is cancelled when the scope is left)
+                            cq.add(1, move |_es| {
+                                may::coroutine::sleep(d * 4);
+                            });
+                            let r = cq.poll(Some(d));
+                            t_ret = ctl.vnow();
+                            matches!(r, Err(may::cqueue::PollError::Timeout))
+                        })
+                    }
                     "cv" => {
                         let g = m.lock().unwrap();
                         let (_g, r) = cv.wait_timeout(g, d).unwrap();
@@ -63,7 +81,7 @@ pub fn build(ctl: &'static Ctrl, params: &Value) -> Instance {
                 }
                 if is_co {
                     crate::run::dbg(format!("ret {nm} {op}({ns}) t0={:?} t1={:?} on {:?}", t0, ctl.vnow(), std::thread::current().id()));
-                    if let (Some(t0), Some(t1)) = (t0, ctl.vnow()) {
+                    if let (Some(t0), Some(t1)) = (t0, t_ret.or(ctl.vnow())) {
                         let el = t1 - t0;
                         if el < *ns && op != "hpark" {
                             bad.lock().unwrap().push(("early_timeout".into(), format!("{nm}: {op}({d:?}) returned after {el} ns of virtual time")));
